@@ -51,6 +51,8 @@ pub struct Ctx {
     pub seed: u64,
     pub threads: usize,
     pub start: Instant,
+    /// proptest shrink budget per failure (expensive properties lower it)
+    pub shrink_iters: u32,
 }
 impl Ctx {
     pub fn new(prop: &str, tier: &str) -> Ctx {
@@ -67,7 +69,8 @@ impl Ctx {
             .ok()
             .and_then(|s| s.parse().ok())
             .unwrap_or_else(|| std::thread::available_parallelism().map(|n| n.get()).unwrap_or(8).min(16));
-        Ctx { prop: prop.to_string(), tier, seed, threads, start: Instant::now() }
+        let shrink_iters = std::env::var("VERIF_SHRINK").ok().and_then(|s| s.parse().ok()).unwrap_or(4096);
+        Ctx { prop: prop.to_string(), tier, seed, threads, start: Instant::now(), shrink_iters }
     }
     /// scale a case count by VERIF_SCALE (float, default 1) for experimentation
     pub fn cases(&self, quick: u64, thorough: u64) -> u64 {
@@ -383,12 +386,15 @@ impl Report {
 // proptest driver
 
 pub fn runner(seed: u64, cases: u32) -> TestRunner {
+    runner_with(seed, cases, 4096)
+}
+pub fn runner_with(seed: u64, cases: u32, max_shrink_iters: u32) -> TestRunner {
     let cfg = Config {
         cases,
         failure_persistence: None,
         rng_algorithm: RngAlgorithm::ChaCha,
         rng_seed: RngSeed::Fixed(seed),
-        max_shrink_iters: 4096,
+        max_shrink_iters,
         max_global_rejects: 1 << 24,
         max_local_rejects: 1 << 24,
         verbose: 0,
@@ -425,7 +431,7 @@ where
             std::thread::Builder::new()
                 .stack_size(256 << 20)
                 .spawn_scoped(sc, move || {
-                    let mut r = runner(seed, per as u32);
+                    let mut r = runner_with(seed, per as u32, ctx.shrink_iters);
                     let strat = mk();
                     let failing = std::cell::Cell::new(false);
                     let res = r.run(&strat, |v| {
